@@ -1,4 +1,6 @@
 import EudoxiaModel.Model.Profile
+import EudoxiaModel.Model.Pool
+import EudoxiaModel.Proofs.Profile
 /-! # C05 — container execution follows the documented time and memory model
 
 The documented model is the specification `specRun` (Model/Profile.lean), which does not mention the tick generator;
@@ -87,6 +89,83 @@ theorem operator_occupies_at_least_one_tick (cfg : Cfg) (cpu : Nat) (segs : List
   · have : (tickSum (rawTickTable cfg cpu segs) == 0) = false := by simpa using h0
     simp only [hne, Bool.not_false, this, Bool.and_false, Bool.false_eq_true, ↓reduceIte]
     omega
+
+/-! ### the tick generator realises the specification -/
+
+/-- **a new container starts with exactly the documented list of demands still to come**: the position-derived list `remL` of the container that
+the pool creates for an assignment is, after renaming the labels from "operators that follow" to "operator index", the specification's
+`ctrDemands` for the operators' segments and the documented tick counts at the assigned CPU count. -/
+theorem new_container_has_the_documented_demands (cfg : Cfg) (w : Store) (cid : Nat) (a : Asg) :
+    let c := mkCtr w cid a
+    let ops := a.ops.map (fun r => w.segsOf r)
+    c.frozen = false ∧ c.completed = false ∧ PosOK cfg c ∧ c.mem = 0 ∧ c.elapsed = 0 ∧ c.ram = a.ram ∧
+    (remL cfg c).map (fun x => (ops.length - 1 - x.1, x.2)) = ctrDemands cfg ops (specTicks cfg a.cpu ops) := by
+  intro c ops
+  refine ⟨rfl, rfl, fun h => by simp [c, mkCtr, mkPos] at h, rfl, rfl, rfl, ?_⟩
+  have hL : remL cfg c = labelOps cfg a.cpu (a.ops.map (fun r => (r, w.segsOf r))) := by
+    simp only [remL, remHead, c, mkCtr, mkPos]
+    cases a.ops with
+    | nil => simp [labelOps]
+    | cons r rs => simp [labelOps]
+  have := labelOps_eq_ctrDemands cfg a.cpu (a.ops.map (fun r => (r, w.segsOf r))) 0
+  simp only [List.length_map, Nat.zero_add, List.map_map] at this
+  rw [hL]
+  simp only [ctrDemands, ops, List.length_map]
+  exact this
+
+/-- **one tick, one demand** (`Container.tick` on a running container): the next documented demand `m` is looked at; above the allocation the
+container stops there holding `m` (the pool's OOM check then kills it: C04); otherwise it holds `m` for this tick (0 if it has just finished),
+the demand is consumed, the operator index advances and suspension becomes possible exactly at an operator's last demand, and the container is
+complete exactly when no demand is left. -/
+theorem tick_consumes_one_demand (cfg : Cfg) (w : Store) (c : Ctr) (cons : Int) (w' : Store) (c' : Ctr) (cons' : Int)
+    (hf : c.frozen = false) (hc : c.completed = false) (hp : PosOK cfg c) (hseg : ∀ o ∈ c.pos.ops, o.2 ≠ [])
+    (h : c.tick cfg w cons = .ok (w', c', cons')) :
+    ∃ k m tl, remL cfg c = (k, m) :: tl ∧ c'.ram = c.ram ∧ c'.cpu = c.cpu ∧ (∀ o ∈ c'.pos.ops, o.2 ≠ []) ∧ c'.elapsed = c.elapsed + 1 ∧
+      (c.ram < m → c'.frozen = true ∧ c'.mem = m ∧ c'.completed = false ∧ c'.curOpIdx = c.curOpIdx) ∧
+      (m ≤ c.ram → c'.frozen = false ∧ remL cfg c' = tl ∧ PosOK cfg c' ∧ (c'.completed = true ↔ tl = []) ∧
+        c'.mem = (if tl = [] then 0 else m) ∧
+        c'.curOpIdx = (if ∀ x ∈ tl, x.1 ≠ k then c.curOpIdx + 1 else c.curOpIdx) ∧
+        (c'.canSuspend = true ↔ ((∀ x ∈ tl, x.1 ≠ k) ∧ tl ≠ []))) :=
+  tick_consumes cfg w c cons w' c' cons' hf hc hp hseg h
+
+/-- **the whole run**: while the demands fit, after `n` ticks the container has consumed exactly the first `n` documented demands, holds the
+`n`-th one, and is complete exactly when `n` is the total tick count `Σ (I/O ticks + CPU ticks)` — neither earlier nor later. -/
+theorem run_follows_the_documented_demands (cfg : Cfg) (n : Nat) (w : Store) (c : Ctr) (cons : Int) (w' : Store) (c' : Ctr) (cons' : Int)
+    (hf : c.frozen = false) (hc : c.completed = false) (hp : PosOK cfg c) (hseg : ∀ o ∈ c.pos.ops, o.2 ≠ [])
+    (hn : n ≤ (remL cfg c).length) (hfit : ∀ x ∈ (remL cfg c).take n, x.2 ≤ c.ram)
+    (h : runN cfg n w c cons = .ok (w', c', cons')) :
+    remL cfg c' = (remL cfg c).drop n ∧ c'.elapsed = c.elapsed + n ∧ c'.frozen = false ∧
+    (0 < n → (c'.completed = true ↔ n = (remL cfg c).length) ∧
+      c'.mem = (if n = (remL cfg c).length then 0 else ((remL cfg c).getD (n - 1) (0, 0)).2)) := by
+  obtain ⟨a1, a2, a3, _, _, _, _, a8⟩ := run_follows_demands cfg n w c cons w' c' cons' hf hc hp hseg hn hfit h
+  exact ⟨a1, a2, a3, a8⟩
+
+/-- **out of memory at the first demand above the allocation, not before**: if the first `n` demands fit and the next one does not, the tick after
+the `n`-th leaves the container stopped, holding that demand (> its allocation), with the operators completed so far unchanged. -/
+theorem oom_at_first_excess (cfg : Cfg) (n : Nat) (w : Store) (c : Ctr) (cons : Int) (w1 : Store) (c1 : Ctr) (cons1 : Int) (w2 : Store) (c2 : Ctr) (cons2 : Int)
+    (hf : c.frozen = false) (hc : c.completed = false) (hp : PosOK cfg c) (hseg : ∀ o ∈ c.pos.ops, o.2 ≠ [])
+    (hn : n < (remL cfg c).length) (hfit : ∀ x ∈ (remL cfg c).take n, x.2 ≤ c.ram) (hex : c.ram < ((remL cfg c).getD n (0, 0)).2)
+    (h1 : runN cfg n w c cons = .ok (w1, c1, cons1)) (h2 : c1.tick cfg w1 cons1 = .ok (w2, c2, cons2)) :
+    c2.frozen = true ∧ c2.mem = ((remL cfg c).getD n (0, 0)).2 ∧ c2.ram < c2.mem ∧ c2.completed = false ∧ c2.curOpIdx = c1.curOpIdx ∧
+    c2.elapsed = c.elapsed + n + 1 := by
+  obtain ⟨a1, a2, a3, a4, a5, a6, a7, a8⟩ := run_follows_demands cfg n w c cons w1 c1 cons1 hf hc hp hseg (by omega) hfit h1
+  have hc1 : c1.completed = false := by
+    by_cases h0 : n = 0
+    · subst h0
+      simp only [runN, Except.ok.injEq, Prod.mk.injEq] at h1
+      rw [← h1.2.1]; exact hc
+    · cases hcc : c1.completed with
+      | false => rfl
+      | true => have := (a8 (by omega)).1.mp hcc; omega
+  obtain ⟨k, m, tl, b1, b2, _, _, b5, b6, _⟩ := tick_consumes cfg w1 c1 cons1 w2 c2 cons2 a3 hc1 a6 a7 h2
+  have hm : ((remL cfg c).getD n (0, 0)).2 = m := by
+    have : (remL cfg c).drop n = (k, m) :: tl := by rw [← a1, b1]
+    rw [List.getD_eq_getElem?_getD, ← List.head?_drop, this]
+    rfl
+  rw [hm] at hex ⊢
+  rw [← a4] at hex
+  obtain ⟨d1, d2, d3, d4⟩ := b6 hex
+  exact ⟨d1, d2, by rw [b2, d2]; exact hex, d3, d4, by omega⟩
 
 /-- the specification on a small example: two operators (3 I/O ticks growing by g, then 2 CPU ticks at the amount read; then fixed memory),
     success after the summed tick count -/
